@@ -45,6 +45,8 @@ func (l *ErrorListener) SyntaxError(recognizer antlr.Recognizer, offendingSymbol
 	})
 }
 
+const numberTokenType = parser.NumscriptLexerNUMBER
+
 func Parse(input string) ParseResult {
 	// TODO handle lexer errors
 	listener := &ErrorListener{}
@@ -61,6 +63,19 @@ func Parse(input string) ParseResult {
 	parser.AddErrorListener(listener)
 
 	parsed := parseProgram(parser.Program())
+
+	// number literals are machine integers: the ones that do not fit are reported as errors
+	for _, tk := range stream.GetAllTokens() {
+		if tk.GetTokenType() != numberTokenType {
+			continue
+		}
+		if _, err := strconv.Atoi(tk.GetText()); err != nil {
+			listener.Errors = append(listener.Errors, ParserError{
+				Range: tokenToRange(tk),
+				Msg:   "number literal out of range: " + tk.GetText(),
+			})
+		}
+	}
 
 	return ParseResult{
 		Source: input,
@@ -585,7 +600,8 @@ func parseNumberLiteral(numNode antlr.TerminalNode) *NumberLiteral {
 
 	amt, err := strconv.Atoi(amtStr)
 	if err != nil {
-		panic("Invalid number: " + amtStr)
+		// the literal does not fit in an int: Parse() reports it as an error
+		amt = 0
 	}
 
 	return &NumberLiteral{
